@@ -184,7 +184,14 @@ let cmd_runf sheeth =
   | OutOfFuel -> "fuel"
 
 (* ---------- ods storage forms ---------- *)
-(* piece: l<hex> | d<hex> | s | s<hexdigits> | T | B | o<hexstyle> | x | O *)
+(* piece: l<hex> | d<hex> | s | s<hexdigits> | T | B | o<hexstyle> | x | O
+          | R<hexstyle> (text:ruby) | r (/text:ruby) | A (text:ruby-base) | a (/text:ruby-base)
+          | y<hexstyle or empty>~<event wire> (text:ruby-text)
+          | h<hexname>~<attrs>~<event wire> (a drawing object inside the paragraph) *)
+let split3 s =
+  match String.split_on_char '~' s with
+  | [a; b; c] -> (a, b, c)
+  | _ -> failwith "bad ~ triple"
 let parse_opiece s : opiece =
   match s.[0] with
   | 'l' -> OLit (s_of_hex (tail1 s))
@@ -194,12 +201,25 @@ let parse_opiece s : opiece =
   | 'B' -> OBreak
   | 'o' -> OSpanOpen (s_of_hex (tail1 s))
   | 'x' -> OSpanClose
+  | 'R' -> ORubyOpen (s_of_hex (tail1 s))
+  | 'r' -> ORubyClose
+  | 'A' -> ORubyBaseOpen
+  | 'a' -> ORubyBaseClose
+  | 'y' ->
+    (match String.split_on_char '~' (tail1 s) with
+     | [st; ev] -> ORubyText ((if st = "" then None else Some (s_of_hex st)), unwire ev)
+     | _ -> failwith "bad ruby-text")
+  | 'h' -> let (n, a, ev) = split3 (tail1 s) in OShape (s_of_hex n, parse_attrs a, unwire ev)
   | _ -> OOther
-(* citem: p<pieces joined by '+'> | n<event wire> *)
+(* citem: p<pieces joined by '+'> | n<event wire> | w<hex white space> | k (comment)
+          | h<hexname>~<attrs>~<event wire> (a drawing object anchored to the cell) *)
 let parse_citem s : citem =
   match s.[0] with
   | 'p' -> CPara (List.map parse_opiece (split '+' (tail1 s)))
   | 'n' -> CAnnot (unwire (tail1 s))
+  | 'w' -> CWs (s_of_hex (tail1 s))
+  | 'k' -> CComment
+  | 'h' -> let (n, a, ev) = split3 (tail1 s) in CShape (s_of_hex n, parse_attrs a, unwire ev)
   | _ -> failwith "bad citem"
 let parse_content s = List.map parse_citem (split '!' s)
 (* store: c<content> | a<hex>/<content> *)
